@@ -154,23 +154,23 @@ var placeholderRE = regexp.MustCompile(`\{\{([^{}]*)\}\}`)
 // ---------- writer side: producers ----------
 
 type producerRow struct {
-	dtype  string
-	code   string
-	keys   []string
-	origin string
-	pos    string
+	dtype       string
+	code        string
+	keys        []string
+	origin      string
+	pos         string
 	unknownKeys bool // Params supplied by the user
 }
 
 type testLit struct {
-	fn      *ssa.Function
-	alloc   *ssa.Alloc
-	code    string
-	hasCode bool
+	fn        *ssa.Function
+	alloc     *ssa.Alloc
+	code      string
+	hasCode   bool
 	codeConst bool
-	keys    []string
+	keys      []string
 	keysConst bool
-	pos     string
+	pos       string
 	// non-constant code / keys (a constructor helper's parameters), for expansion per call site
 	codeVal ssa.Value
 	keyVals []ssa.Value
